@@ -1,6 +1,8 @@
 package props
 
 import (
+	"go/constant"
+	"math"
 	"fmt"
 	"go/ast"
 	"go/token"
@@ -90,6 +92,7 @@ func runC07(p *core.Program, r *core.Report) {
 	c07Clear(p, r, reg)
 	c07Mask(p, r, reg)
 	c07IntParsers(p, r)
+	c07ZeroToEmpty(p, r)
 	c07TextNum(p, r)
 }
 
@@ -989,6 +992,103 @@ func c07TextNum(p *core.Program, r *core.Report) {
 			r.Viol("C07.textnum", c, p.Pos(fi.Decl.Pos()), strings.Join(bad, "; "))
 		} else {
 			r.OK("C07.textnum", c, p.Pos(fi.Decl.Pos()), "")
+		}
+	}
+}
+
+// c07ZeroToEmpty: a helper of util/stringutil that renders an integer as text and has a path
+// returning the empty string takes that path for the value 0 only (the readers turn "" back into 0:
+// any other number rendered as "" is lost). Decided on the paths of the helper: the conditions of
+// every path that returns "" confine the argument to {0}.
+func c07ZeroToEmpty(p *core.Program, r *core.Report) {
+	pk := p.Pkg("util/stringutil")
+	if pk == nil {
+		return
+	}
+	dom := ivl{math.MinInt64, math.MaxInt64}
+	for _, fi := range p.Funcs {
+		if fi.Pkg != pk || fi.Decl.Body == nil || core.RecvNamed(fi.Obj) != nil || fi.Decl.Type.Params.NumFields() != 1 || len(fi.Decl.Type.Params.List[0].Names) != 1 {
+			continue
+		}
+		info := fi.Pkg.TypesInfo
+		sig := fi.Obj.Type().(*types.Signature)
+		if sig.Results().Len() != 1 {
+			continue
+		}
+		if b, ok := sig.Results().At(0).Type().Underlying().(*types.Basic); !ok || b.Info()&types.IsString == 0 {
+			continue
+		}
+		pobj := info.Defs[fi.Decl.Type.Params.List[0].Names[0]]
+		if b, ok := pobj.Type().Underlying().(*types.Basic); !ok || b.Info()&types.IsInteger == 0 {
+			continue
+		}
+		type cnd struct {
+			set ivSet
+			ok  bool
+		}
+		conds := map[token.Pos]map[bool]cnd{}
+		ps, over := paths.Enumerate(fi.Decl.Body, paths.Config{Info: info,
+			Cond: func(c ast.Expr, v bool) *paths.Event {
+				// <param> op <const> (either way round)
+				res := cnd{}
+				if be, ok := ast.Unparen(c).(*ast.BinaryExpr); ok {
+					x, y, op := be.X, be.Y, be.Op
+					if _, isC := constIntOf(info, x); isC {
+						x, y, op = y, x, flipOp(op)
+					}
+					if id, ok := ast.Unparen(stripConvs(info, x)).(*ast.Ident); ok && info.ObjectOf(id) == pobj {
+						if k, isC := constIntOf(info, y); isC {
+							switch op {
+							case token.EQL, token.NEQ, token.LSS, token.LEQ, token.GTR, token.GEQ:
+								res = cnd{ivCmp(op, k, dom), true}
+								if !v {
+									res.set = ivComplement(res.set, dom)
+								}
+							}
+						}
+					}
+				}
+				if conds[c.Pos()] == nil {
+					conds[c.Pos()] = map[bool]cnd{}
+				}
+				conds[c.Pos()][v] = res
+				return &paths.Event{Kind: "COND", Arg: fmt.Sprint(v), Pos: c.Pos()}
+			}})
+		if over {
+			continue
+		}
+		empties := 0
+		var probs []string
+		for _, pa := range ps {
+			if len(pa) == 0 || pa[len(pa)-1].Kind != "RET" {
+				continue
+			}
+			rs, _ := pa[len(pa)-1].Node.(*ast.ReturnStmt)
+			if rs == nil || len(rs.Results) != 1 {
+				continue
+			}
+			tv, ok := info.Types[rs.Results[0]]
+			if !ok || tv.Value == nil || tv.Value.Kind() != constant.String || constant.StringVal(tv.Value) != "" {
+				continue
+			}
+			empties++
+			set := ivSet{dom}
+			for _, e := range pa {
+				if e.Kind == "COND" {
+					if c := conds[e.Pos][e.Arg == "true"]; c.ok {
+						set = ivIntersect(set, c.set)
+					}
+				}
+			}
+			if set.empty() {
+				continue // infeasible
+			}
+			if !(len(set) == 1 && set[0].lo == 0 && set[0].hi == 0) {
+				probs = append(probs, fmt.Sprintf("the empty text is returned for the values %s, not only for 0: those numbers are read back as 0", set))
+			}
+		}
+		if empties > 0 {
+			fileProbs(r, "C07.textnum", "util/stringutil."+fi.Obj.Name()+" empty-for-zero", p.Pos(fi.Decl.Pos()), uniq(probs), `"" stands for 0 and nothing else`)
 		}
 	}
 }
